@@ -360,6 +360,38 @@ class Spec:
             idx, ent = new, ent.src
         return ent, idx
 
+    def root_box(self, ent):
+        """the region of the underlying buffer a (chain of) window(s) denotes:
+        per dimension of the buffer ("pt", p) or ("iv", lo, hi)"""
+        if not ent.is_alias:
+            return ent, [("iv", z3.IntVal(0), n) for n in ent.extents]
+        root, box = self.root_box(ent.src)
+        out, k = [], 0
+        for b in box:
+            if b[0] == "pt":
+                out.append(b)
+                continue
+            w = ent.idx[k]
+            k += 1
+            out.append(("pt", b[1] + w[1]) if w[0] == "pt" else ("iv", b[1] + w[1], b[1] + w[2]))
+        if k != len(ent.idx):
+            raise Unsupported("window rank mismatch")
+        return root, out
+
+    def window_used(self, ent, guard, depth, how):
+        """a window that is accessed or passed to a call lies inside the buffer it is taken from"""
+        if not ent.is_alias or depth > 0:
+            return
+        root, box = self.root_box(ent)
+        if root.callee_local:
+            return
+        conds = []
+        for b, n in zip(box, root.extents):
+            conds.append(z3.And(0 <= b[1], b[1] < n) if b[0] == "pt" else z3.And(0 <= b[1], b[1] <= b[2], b[2] <= n))
+        g = z3.And(*guard) if guard else z3.BoolVal(True)
+        self.items.append(Item(f"window {ent.name} ({how}) lies inside the buffer {root.name} it is taken from",
+                               "window-inside-buffer", g, z3.And(*conds)))
+
     def access(self, how, name, idx, guard, scope, depth, where):
         ent = scope[name]
         if not idx and not ent.is_alias and not ent.extents:
@@ -371,12 +403,15 @@ class Spec:
             self.items.append(Item(f"{how} of {nm}{where} stays inside the declared extent of the {what} {nm}",
                                    f"{how}-declared-extent" + ("-alias" if ent.is_alias else ""), g,
                                    self.in_extents(idx, ent.extents)))
+            self.window_used(ent, guard, depth, f"{how} of {nm}")
         root, ridx = self.to_root(ent, idx)
-        if root is not ent and not root.callee_local:
+        if root.callee_local:
+            return
+        if root is not ent:
             via = "a callee through " if depth > 0 else ""
             self.items.append(Item(f"{how} of {nm}{where} by {via}a window lands inside the source buffer {root.name}",
                                    f"{how}-root-extent", g, self.in_extents(ridx, root.extents)))
-        elif depth > 0 and not root.callee_local and root is ent:
+        elif depth > 0:
             self.items.append(Item(f"{how} of {nm}{where} by a callee lands inside the caller's buffer {root.name}",
                                    f"{how}-root-extent", g, self.in_extents(ridx, root.extents)))
 
@@ -398,29 +433,19 @@ class Spec:
         else:
             raise Unsupported(f"right-hand side {type(e).__name__}")
 
-    def window(self, name, wexpr, guard, scope, sub, depth, what):
-        """w = src[idx]: the window must lie inside the extent of what it is taken from"""
+    def window(self, name, wexpr, scope, sub):
+        """w = src[idx] (a declaration, or a window expression in a call)"""
         L = self.L
         src = scope[wexpr.name]
         idx = []
-        conds = []
         if len(wexpr.idx) != len(src.extents):
             raise Unsupported("window rank")
-        for w, n in zip(wexpr.idx, src.extents):
+        for w in wexpr.idx:
             if isinstance(w, L.Point):
-                p = self.ev(w.pt, sub)
-                idx.append(("pt", p))
-                conds.append(z3.And(0 <= p, p < n))
+                idx.append(("pt", self.ev(w.pt, sub)))
             else:
-                lo, hi = self.ev(w.lo, sub), self.ev(w.hi, sub)
-                idx.append(("iv", lo, hi))
-                conds.append(z3.And(0 <= lo, lo <= hi, hi <= n))
-        ent = _Alias(name, src, idx)
-        if depth == 0:
-            g = z3.And(*guard) if guard else z3.BoolVal(True)
-            self.items.append(Item(f"{what} {wexpr.name}[...] lies inside the extent of {wexpr.name}",
-                                   "window-inside-source", g, z3.And(*conds)))
-        return ent
+                idx.append(("iv", self.ev(w.lo, sub), self.ev(w.hi, sub)))
+        return _Alias(name, src, idx)
 
     # -- statements ------------------------------------------------------------
     def walk(self, stmts, guard, scope, sub, depth):
@@ -453,7 +478,7 @@ class Spec:
                                            z3.And(*[x > 0 for x in ext])))
                 scope[s.name] = _Buf(s.name, ext, local_to_callee=depth > 0)
             elif isinstance(s, L.WindowStmt):
-                scope[s.name] = self.window(s.name, s.rhs, guard, scope, sub, depth, f"window {s.name} =")
+                scope[s.name] = self.window(s.name, s.rhs, scope, sub)
             elif isinstance(s, L.Call):
                 self.call(s, guard, scope, sub, depth)
             else:
@@ -477,11 +502,11 @@ class Spec:
                 ent = scope[arg.name]
             elif isinstance(arg, L.WindowExpr):
                 self.nwin += 1
-                ent = self.window(f"<window argument {self.nwin}>", arg, guard, scope, sub, depth,
-                                  f"call {f.name}: window argument")
+                ent = self.window(f"{arg.name}[...] #{self.nwin}", arg, scope, sub)
             else:
                 raise Unsupported(f"call argument {type(arg).__name__}")
             cscope[sig.name] = ent
+            self.window_used(ent, guard, depth, f"argument {sig.name} of {f.name}")
             want = [self.ev(x, csub) for x in sig.type.shape()]
             if len(want) != len(ent.extents):
                 raise Unsupported("call argument rank")
